@@ -225,7 +225,7 @@ public:
                "return; distinct = distinct (plan shape hash, signature of handler variant x configuration bits x entry contexts)";
     }
     std::pair<int, int> pool_need() const override {
-        return {2, 0};
+        return {3, 0};
     }
     std::vector<std::pair<std::string, s64>> simplest_knobs() const override {
         return {{"variant", 2}, {"line", 0}, {"cpc", 1}, {"ccnta", 1}, {"crep", 1}, {"stp16", 0}, {"retcond", 0}};
